@@ -90,6 +90,12 @@ func vfVariant(name string, seed int) chunk {
 		return &chunkIForwardTSN{newCumulativeTSN: vfB32(seed + 2)}
 	case "ifwd2":
 		return &chunkIForwardTSN{newCumulativeTSN: vfB32(seed + 4), streams: []chunkIForwardTSNStream{{identifier: 1, unordered: false, messageIdentifier: vfB32(seed + 5)}, {identifier: 2, unordered: true, messageIdentifier: vfB32(seed + 1)}}}
+	case "ifwdDup":
+		// several skipped messages of one (stream, U) listed together, their MIDs straddling the 32-bit wrap
+		const b = 0xFFFFFFFF
+		return &chunkIForwardTSN{newCumulativeTSN: vfB32(seed + 3), streams: []chunkIForwardTSNStream{
+			{identifier: 1, messageIdentifier: b - 1}, {identifier: 1, messageIdentifier: b}, {identifier: 1, messageIdentifier: 0}, {identifier: 1, messageIdentifier: 1},
+			{identifier: 1, unordered: true, messageIdentifier: 5}, {identifier: 2, messageIdentifier: 7}, {identifier: 1, unordered: true, messageIdentifier: 3}}}
 	case "init", "initZca":
 		c := &chunkInit{}
 		c.initiateTag, c.advertisedReceiverWindowCredit, c.numOutboundStreams, c.numInboundStreams, c.initialTSN = vfB32(seed)|1, 1500+vfB32(seed+1)%100000, 65535, 1, vfB32(seed+2)
@@ -161,6 +167,32 @@ func vfFrameEvent(names []string, seed int) map[string]any {
 		off += (c.Len + 3) &^ 3
 	}
 	ev["wf"], ev["kinds"], ev["lens"], ev["offs"], ev["ck"] = wf, kinds, lens, offs, d.CkClass
+	// I-FORWARD-TSN field fidelity: the entries the chunk was built from against the entries on the wire (read by the
+	// harness's own decoder). MIDs are reported as signed distances from 2^32-1 (TLC integers are 32 bit).
+	ifwd := []any{}
+	for i, n := range names {
+		b, ok := vfVariant(n, seed+i).(*chunkIForwardTSN)
+		if !ok || i >= len(d.Chunks) {
+			continue
+		}
+		built := []any{}
+		for _, st := range b.streams {
+			u := 0
+			if st.unordered {
+				u = 1
+			}
+			built = append(built, []any{int(st.identifier), u, int(int32(st.messageIdentifier - 0xFFFFFFFF))})
+		}
+		m, _ := vfChunkJSONb(d.Chunks[i], 0, 0, nil, func(int) vfSeqBase { return vfSeqBase{mid: 0xFFFFFFFF} })
+		got, _ := m["streams"].([]any)
+		if got == nil {
+			got = []any{}
+		}
+		ifwd = append(ifwd, map[string]any{"i": i + 1, "built": built, "got": got})
+	}
+	if len(ifwd) > 0 {
+		ev["ifwd"] = ifwd
+	}
 	// the real decoder on the real encoder's output
 	q := &packet{}
 	if err := q.unmarshal(true, raw); err != nil {
